@@ -1347,6 +1347,17 @@ pub fn fixed_program() -> Program {
     };
     push(d, &mut rng);
 
+    // exotic macro-valued doc attribute
+    let mut d = blank_decl("d16");
+    d.path = "/from-macro".into();
+    d.doc = DocSpec {
+        shape: "fixed:macro-valued-doc-attr".into(),
+        src: vec!["#[doc = concat!(\"Summary \", \"from concat\")]".into(), "///".into(), "/// and a plain line".into()],
+        text: vec!["Summary from concat".into(), "".into(), "and a plain line".into()],
+        exotic: Some("doc-attribute-with-macro-value"),
+    };
+    push(d, &mut rng);
+
     Program { label: "fixed".into(), decls, trait_ctx: None, trait_module: None }
 }
 
